@@ -8,9 +8,12 @@ CONSTANTS
  ResetInTransition = TRUE
  ResetBeforeWindow = FALSE
  StrobeInTransition = TRUE
+ PartialOutcomes = TRUE
+ ShallowChangeTest = FALSE
+ CacheFromPoller = FALSE
  FixLevel = 0
 INIT Init
 NEXT Next
-INVARIANTS TypeOK NoStaleClock NoStaleObs NoticedInv
+INVARIANTS TypeOK NoStaleClock NoStaleObs NoticedInv NoOverwrite
 CONSTRAINT BaselineFirst
 CHECK_DEADLOCK FALSE
